@@ -694,6 +694,17 @@ pub fn run_c16_passthrough(ctx: &Ctx, t_out: &mut Tally, wi: usize, workers: usi
         jobs.push((devs, false, "listed:multi".into()));
     }
     jobs.push((vec![], true, "tampered-zero-sentinel".into()));
+    // deviations that cancel under arithmetic shortcuts (wrapping u32 sums, limb sums, squared sums)
+    for (a, b) in [(1u64 << 31, 1u64 << 31), (1, 0xFFFF_FFFF), (0xFFFF_FFFF, 1), (0xFFFF_FFFE, 2)] {
+        jobs.push((vec![(1, a), (2, b)], false, format!("listed:outputs-sum-2^32[{}+{}]", a, b)));
+    }
+    for start in [8usize, 12, 16] {
+        for _ in 0..ctx.tier.pick(3, 12) {
+            let d = refm::structured_delta(rng);
+            let devs: Vec<(usize, u64)> = (0..4).filter(|j| d[*j] != 0).map(|j| (start + j, d[j])).collect();
+            jobs.push((devs, false, format!("listed:structured-{}", match start { 8 => "exit1", 12 => "exit2", _ => "block_hash" })));
+        }
+    }
     for (ji, (devs, tampered, label)) in jobs.iter().enumerate() {
         if ji % workers != wi {
             continue;
@@ -758,6 +769,17 @@ pub fn run_c16_passthrough(ctx: &Ctx, t_out: &mut Tally, wi: usize, workers: usi
         }
         jobs.push((vec![(1, 5)], false, "unlisted:asset".into()));
         jobs.push((vec![(7, 9)], false, "unlisted:block_number".into()));
+        // cancelling deviations
+        jobs.push((vec![(8, 1 << 31), (13, 1 << 31)], false, "listed:slot-amounts-sum-2^32".into()));
+        jobs.push((vec![(8, 1), (13, 0xFFFF_FFFF)], false, "listed:slot-amounts-sum-2^32".into()));
+        for _ in 0..3 {
+            let d = refm::structured_delta(rng);
+            let devs: Vec<(usize, u64)> = (0..4).filter(|j| d[*j] != 0).map(|j| (3 + j, d[j])).collect();
+            jobs.push((devs, false, "listed:structured-block_hash".into()));
+            let d = refm::structured_delta(rng);
+            let devs: Vec<(usize, u64)> = (0..4).filter(|j| d[*j] != 0).map(|j| (9 + j, d[j])).collect();
+            jobs.push((devs, false, "listed:structured-slot0-account".into()));
+        }
         for (ji, (devs, tampered, label)) in jobs.iter().enumerate() {
             if (ji + n) % workers != wi {
                 continue;
